@@ -640,3 +640,96 @@ def Hash(inp, tab, ev):
             ripemd.compress = real
     ev["calls"] = calls[:ncalls] if ok else []
     ev["res"] = res_of(ok, v)
+
+
+# ---------------------------------------------------- C04 / C03 mnemonic, seed
+def _hexbytes(s):
+    """bytes of a hex text if it is clean pairs, or clean after dropping ASCII blanks; else None"""
+    t = "".join(c for c in s if c not in " \t\n\r\x0b\x0c")
+    if len(t) % 2 == 0 and all(c in "0123456789abcdefABCDEF" for c in t):
+        return bytes(int(t[i:i + 2], 16) for i in range(0, len(t), 2))
+    return None
+
+
+def _indices(sentence):
+    from btc_hd_wallet.bip39_wordlist import word_list
+    pos = {w: i for i, w in enumerate(word_list)}
+    return [pos.get(w, -1) for w in sentence.split(" ")] if sentence != "" else []
+
+
+@act
+def Mnemonic(inp, tab, ev):
+    from btc_hd_wallet import bip39, BaseWallet
+    s = untext(inp["hex"])
+    b = _hexbytes(s)
+    if b is not None:
+        tab.sha256(b)
+    if inp.get("via") == "wallet":
+        ok, v = call(lambda: BaseWallet.from_entropy_hex(s).mnemonic)
+    else:
+        ok, v = call(bip39.mnemonic_from_entropy, s)
+    ev["res"] = res_of(ok, v, lambda m: {"idx": _indices(m)})
+
+
+@act
+def WordList(inp, tab, ev):
+    from btc_hd_wallet.bip39_wordlist import word_list
+    words = [str(w) for w in word_list]
+    tab.sha256("".join(w + "\n" for w in words).encode("utf-8"))
+    ev["words"] = [T(w) for w in words]
+    ev["res"] = {"ok": True, "v": len(words)}
+
+
+def _seed_oracles(tab, m, p):
+    nm, npw = tab.nfkd(m), tab.nfkd(p)
+    return tab.pbkdf2(R.utf8(nm), b"mnemonic" + R.utf8(npw), 2048, 64, fast=False)
+
+
+@act
+def Seed(inp, tab, ev):
+    from btc_hd_wallet import bip39
+    m, p = untext(inp["m"]), untext(inp["p"])
+    _seed_oracles(tab, m, p)
+    ok, v = call(bip39.bip39_seed_from_mnemonic, m, p)
+    ev["res"] = res_of(ok, v, B)
+
+
+@act
+def Construct(inp, tab, ev):
+    from btc_hd_wallet import BaseWallet
+    from btc_hd_wallet.bip39_wordlist import word_list
+    from . import refwallet as W
+    net = inp["net"]
+    test = net == "test"
+    r = inp["route"]
+    seed = None
+    if r == "mnemonic":
+        seed = _seed_oracles(tab, untext(inp["m"]), untext(inp["p"]))
+        f = lambda: BaseWallet.from_mnemonic(untext(inp["m"]), untext(inp["p"]), test)
+    elif r == "entropy":
+        hx = untext(inp["hex"])
+        b = _hexbytes(hx)
+        if b is not None:
+            h = tab.sha256(b)
+            if len(b) in (16, 20, 24, 28, 32) and hx.strip() == hx and " " not in hx:
+                bits = bin(int.from_bytes(b, "big"))[2:].zfill(len(b) * 8) + bin(int.from_bytes(h, "big"))[2:].zfill(256)[:len(b) // 4]
+                idx = [int(bits[i:i + 11], 2) for i in range(0, len(bits), 11)]
+                ev["wordtab"] = [{"i": i, "w": T(str(word_list[i]))} for i in sorted(set(idx))]
+                seed = _seed_oracles(tab, " ".join(str(word_list[i]) for i in idx), untext(inp["p"]))
+        f = lambda: BaseWallet.from_entropy_hex(hx, untext(inp["p"]), test)
+    elif r == "seed_hex":
+        seed = bytes(inp["seed"])
+        f = lambda: BaseWallet.from_bip39_seed_hex(seed.hex(), test)
+    else:
+        seed = bytes(inp["seed"])
+        f = lambda: BaseWallet.from_bip39_seed_bytes(seed, test)
+    ev.setdefault("wordtab", [])
+    if seed is not None:
+        rn = W.master(tab, seed, net)
+        ref_strings(tab, rn)
+    ok, w = call(f)
+    if ok:
+        ok, w = call(lambda: {"node": node_json(w.master), "xprv": T(w.master.extended_private_key()),
+                              "wallet_net": "test" if w.testnet else "main",
+                              "mnemonic": T(w.mnemonic or ""), "password": T(w.password or "")})
+    ev["res"] = res_of(ok, w)
